@@ -201,6 +201,8 @@ def gen(rng, tier, index):
                 ' on ' not in text and ' off ' not in text:
             timing['d'] = min(timing['d'], 0.02)   # busy loop: keep it short
     rerun = rng.choice([None, 'same', 'other'])
+    second_stop = rng.choice([0, tick, 3 * tick]) \
+        if rng.random() < 0.15 else None
     pre_stop = None
     if followers and rng.random() < 0.2:
         # an earlier stop aimed at a job that is still waiting in the queue
@@ -212,7 +214,7 @@ def gen(rng, tier, index):
     return {'policy': pol, 'population': pop, 'tick': tick, 'shape': shape,
             'start': [hour, minute, second], 'main': text,
             'followers': followers, 'how': how, 'timing': timing,
-            'rerun': rerun, 'bg': bg, 'pre_stop': pre_stop,
+            'rerun': rerun, 'bg': bg, 'pre_stop': pre_stop, 'second': second_stop,
             'other': _follower_text(rng, pop, 5)}
 
 
@@ -464,6 +466,28 @@ def execute(scenario, chooser):
             st['S'] = sim.next_event()
             st['t_S'] = sim.now
             st['queue_at_S'] = [a.name for a in jc.get_queued()]
+            st['calls'] = [(st['S_inv'], st['S'])]
+            if sc.get('second') is not None:
+                # the same request once more (idempotent; possibly stale)
+                sim.sleep(sc['second'])
+                inv2 = sim.next_event()
+                try:
+                    if how == 'agent':
+                        agent.request_stop()
+                    elif how == 'stop_job':
+                        wa.stop_script('main')
+                    elif how == 'stop_current':
+                        wa.stop_current()
+                    elif how == 'stop_background':
+                        jc.stop_background()
+                    else:
+                        wa.stop_all()
+                except core.SimAbort:
+                    raise
+                except Exception as ex:
+                    st['stop_exc'] = 'second {}: {}'.format(
+                        type(ex).__name__, ex)
+                st['calls'].append((inv2, sim.next_event()))
 
         def requester():
             if timing['mode'] == 'delay':
@@ -767,7 +791,10 @@ def _judge(sc, st, hist, sim, cap, violation, probes, res):
         end_ev = ended[0][2] if ended else None
         if end_ev is not None and end_ev < req_ev:
             continue
-        after = [w for w in wire if w[0] > S and _owner(w[3], w[4]) == jname
+        s_v = min([ret for inv, ret in st.get('calls', [])
+                   if inv <= req_ev <= ret] or [S])
+        after = [w for w in wire if w[0] > s_v
+                 and _owner(w[3], w[4]) == jname
                  and (st.get('rerun_mark') is None or
                       w[0] < st['rerun_mark'])]
         kinds = {(w[3], w[4]) for w in after}
@@ -779,7 +806,7 @@ def _judge(sc, st, hist, sim, cap, violation, probes, res):
                       else 'commands-after-stop',
                       'job {} sent {} further commands of {} different '
                       'statements after the stop call returned (event {}): '
-                      '{}'.format(jname, len(after), len(kinds), S,
+                      '{}'.format(jname, len(after), len(kinds), s_v,
                                   [(w[0], w[2], w[3]) for w in after[:6]]))
         if end_ev is None:
             violation(KNOWN_PRE_ARM if _preceded_arming(st, hist, sim, jname)
